@@ -21,8 +21,8 @@ WRAP = {"time": "PTtime", "weekday": "PTweekday", "timedelta": "PTdelta"}
 
 
 class Func(Method):
-    def __init__(self, fd, known, dicts=None, valdicts=None):
-        super().__init__(fd, known, None, {}, dicts or {}, has_self=False)
+    def __init__(self, fd, known, dicts=None, valdicts=None, has_self=False, state_type=None, fields=None):
+        super().__init__(fd, known, state_type, fields or {}, dicts or {}, has_self=has_self)
         self.valdicts = valdicts or {}     # dict name -> (coq lookup function, [keys], value type)
         self.uses_clock = False
         self.truthy = {}
@@ -116,16 +116,15 @@ class Func(Method):
                     fail(n, "membership")
                 c = "(" + " || ".join("pyjobtype_eqb %s %s" % (a, k) for k in keys) + ")"
                 return (c if op == "In" else "(negb %s)" % c), "bool"
-            if op == "LtE":
+            if op in ("LtE", "Eq"):
+                mark = len(self.pre)
                 a, ta = self.e(n.left)
                 b, tb = self.e(right)
-                if ta == tb == "set:str":
+                if op == "LtE" and ta == tb == "set:str":
                     return "(zset_subset %s %s)" % (a, b), "bool"
-            if op == "Eq":
-                a, ta = self.e(n.left)
-                b, tb = self.e(right)
-                if ta == tb == "nat":
+                if op == "Eq" and ta == tb == "nat":
                     return "(Nat.eqb %s %s)" % (a, b), "bool"
+                del self.pre[mark:]
         if isinstance(n, ast.Subscript) and isinstance(n.value, ast.Name) and n.value.id in self.valdicts:
             k, tk = self.e(n.slice)
             if tk != "jobtype":
